@@ -1494,7 +1494,7 @@ def run(ctx):
     from . import dsdlgen
     spaces = [(label, files, True) for label, files, _ in corpus_namespaces()]
     corpus_cases = {label: cs for label, _, cs in corpus_namespaces()}
-    n_random, n_types = (1, 24) if ctx.quick else (8, 30)
+    n_random, n_types = (2, 24) if ctx.quick else (14, 30)
     for i in range(n_random):
         g = dsdlgen.generate(ctx.rng, ctx.scratch / f"gen{i}", n_types=n_types, root_name=f"vns{i}")
         spaces.append((f"rand{i}", dict(g.texts), False))
